@@ -18,7 +18,24 @@ package main
 //@ axiom clCntS: forall i int :: 0 <= i ==> clCnt(i+1) == clCnt(i) + (isTerm(i) ? 1 : 0)
 //@ spec pred lineIs(t *Terminal) { len(t.line) == clLen() && (forall i int :: 0 <= i && i < clLen() ==> t.line[i] == clRune(i)) }
 
+// lineIs(l): the rune slice l is the typed buffer.
 //@ spec pred bufIs(l []rune) { len(l) == clLen() && (forall i int :: 0 <= i && i < clLen() ==> l[i] == clRune(i)) }
+// piece(l, s, k): s is the k-th statement of the buffer: the text from just behind the (k-1)-th terminator (or from the start)
+// up to and including the k-th terminator, trimmed.
+//@ spec pred piece(l []rune, s string, k int) { exists b, e int :: 0 <= b && b <= e && e < clLen() && isTerm(e) && clCnt(e) == k && clCnt(b) == k &&
+//@        (b == 0 || isTerm(b-1)) && s == strTrim(runesStr(l, b, e+1)) }
+
+//@ func splitStatements(line []rune) (stmts []string, rest []rune)
+//@   props C20
+//@   ensures[count; C20] old(bufIs(line)) ==> len(stmts) == clCnt(clLen())
+//@   ensures[pieces; C20] old(bufIs(line)) ==> forall k int :: 0 <= k && k < len(stmts) ==> piece(line, stmts[k], k)
+//@   ensures[rest; C20] old(bufIs(line)) ==> exists b int :: 0 <= b && b <= clLen() && clCnt(b) == clCnt(clLen()) && (b == 0 || isTerm(b-1)) && len(rest) == clLen() - b &&
+//@              (forall i int :: 0 <= i && i < len(rest) ==> rest[i] == clRune(b+i))
+//@   ensures[open; C20] old(bufIs(line)) && clQ(clLen()) != 0 ==> len(rest) > 0
+//@   loop 1 invariant 0 <= cur && cur <= len(line) && 0 <= begin && begin <= cur && (stmts == nil || fresh(stmts))
+//@   loop 1 invariant[state; C20] old(bufIs(line)) ==> quote == clQ(cur) && len(stmts) == clCnt(cur) && clCnt(begin) == clCnt(cur) && (begin == 0 || isTerm(begin-1))
+//@   loop 1 invariant[pieces; C20] old(bufIs(line)) ==> forall k int :: 0 <= k && k < len(stmts) ==> piece(line, stmts[k], k)
+//@   loop 1 invariant[open; C20] old(bufIs(line)) && quote != 0 ==> begin < cur
 
 //@ func (t *Terminal) moveCursorToPos(pos int)
 //@   props C20
@@ -33,5 +50,4 @@ package main
 //@   props C20
 //@   partial
 //@   requires t != nil
-//@   ensures[count; C20] key == 13 && ok && old(bufIs(t.line)) ==> len(line) == clCnt(clLen())
-//@   loop 1 invariant[count; C20] key == 13 && old(bufIs(t.line)) ==> 0 <= cur && cur <= clLen() && len(line) == clCnt(cur) && bufIs(t.line)
+//@   ensures[submit; C20] key == 13 && ok && old(bufIs(t.line)) ==> len(line) == clCnt(clLen()) && (forall k int :: 0 <= k && k < len(line) ==> piece(old(t.line), line[k], k))
